@@ -117,7 +117,13 @@ func (r *DefaultReader) acquireSlow(n int) int {
 		if n <= len(r.buf)-r.ri {
 			return n
 		}
+		if m > 0 {
+			// only consecutive empty reads count against the limit
+			i = -1
+		}
 	}
+	// like bufio: the source returned no data and no error too many times in a row
+	r.err = io.ErrNoProgress
 	return len(r.buf) - r.ri
 }
 
